@@ -90,7 +90,10 @@ func runC16(t *testing.T, e *worlds.Env, tier string) (bool, any) {
 			enabled[2], enabled[3] = true, true
 		}
 		var creds map[string]string
-		switch tp.Weighted("creds", 4, 2, 2, 1, 1) {
+		switch tp.Weighted("creds", 4, 2, 2, 1, 1, 2) {
+		case 5:
+			// a user name given as a placeholder that resolves to nothing: not a user
+			creds = map[string]string{"{env.VERIF_NEVER_SET}": "nobody", "erin": "pw"}
 		case 1:
 			creds = map[string]string{"alice": "wonder"}
 		case 2:
@@ -109,7 +112,7 @@ func runC16(t *testing.T, e *worlds.Env, tier string) (bool, any) {
 		}
 		valid := map[string]string{}
 		for k, v := range creds {
-			if k != "" {
+			if k != "" && !strings.Contains(k, "{env.VERIF_NEVER_SET}") { // (resolves to the empty name)
 				valid[k] = v
 			}
 		}
@@ -160,7 +163,13 @@ func runC16(t *testing.T, e *worlds.Env, tier string) (bool, any) {
 		user, pass := "", ""
 		authVer := byte(1)
 		if serverMethod == 2 {
-			switch tp.Weighted("auth", 4, 2, 2, 1, 1, 1) {
+			authKind := tp.Weighted("auth", 4, 2, 2, 1, 1, 1, 1)
+			if _, ok := creds["{env.VERIF_NEVER_SET}"]; ok && tp.Prob(1, 2, "auth-empty-name") {
+				authKind = 6
+			}
+			switch authKind {
+			case 6:
+				user, pass = "", "nobody" // the password configured for a name that resolves to nothing
 			case 0: // right credentials of some entry
 				var names []string
 				for k := range valid {
